@@ -66,9 +66,17 @@ def total_program(rnd, is_async):
     return prog
 
 
-def gen_c06(rnd, mode, tier):
+def gen_c06(rnd, mode, tier, tolerant_ok=False):
     is_async = mode == "asyncio"
     prog = total_program(rnd, is_async)
+    tolerant = False
+    if tolerant_ok and len(prog["events"]) >= 2 and rnd.random() < 0.25:
+        # tolerant machine (allow_event_without_transition=True) that is NOT total: an accepted event
+        # with no transition from the state it meets WHEN IT IS PROCESSED is ignored silently
+        keep = [t for t in prog["trans"] if t["events"][0] == prog["events"][0] or rnd.random() < 0.5]
+        if len(keep) < len(prog["trans"]):
+            prog["trans"] = keep
+            tolerant = True
     nsend = rnd.randint(2, 4 if tier == "thorough" or rnd.random() < 0.3 else 3)
     tiny = (not is_async) and rnd.random() < 0.5
     if tiny:
@@ -95,7 +103,7 @@ def gen_c06(rnd, mode, tier):
     # nested sends from callbacks, keyed by the token being processed
     alltoks = [s["tok"] for sd in senders for s in sd["sends"]]
     cands = sorted(c for c, m in prog["cbs"].items() if (m.get("async") or not is_async))
-    for _ in range(rnd.randint(0, 2)):
+    for _ in range(0 if tolerant else rnd.randint(0, 2)):
         c = rnd.choice(cands)
         if not c.startswith("machine."):
             sig = prog["cbs"][c]["sig"]
@@ -147,8 +155,10 @@ def gen_c06(rnd, mode, tier):
         r_["ret"] = {"$uniq": 1}
     sc = {"profile": "C06", "mode": mode, "programs": [prog], "beh": beh, "gv": {}, "senders": senders,
           "cancel": cancel,
-          "ops": [{"op": "new", "inst": "A", "prog": 0, "listeners": ["L0"], "rtc": True, "allow": False}],
+          "ops": [{"op": "new", "inst": "A", "prog": 0, "listeners": ["L0"], "rtc": True, "allow": tolerant}],
           "perm_seed": 0}
+    if tolerant:
+        sc["tolerant"] = True
     if mode == "threads":
         sc["tseed"] = rnd.randrange(1 << 30)
         sc["nswitch"] = rnd.choice([1, 2, 2, 2, 3, 4, 6])
@@ -181,7 +191,8 @@ def _build(sc):
     SIM.fields["A"] = "state"
     SIM.constructing = "A"
     try:
-        sm = getattr(mod, p["name"])(model, listeners=[l0])
+        kw = {"allow_event_without_transition": True} if sc.get("tolerant") else {}
+        sm = getattr(mod, p["name"])(model, listeners=[l0], **kw)
     finally:
         SIM.constructing = None
     sm._sim_tag = "A"
@@ -422,6 +433,8 @@ def check(sc, res):
         # a cancelled drain aborts its transition and drops what is queued (C04): only the overlap
         # clause is meaningful here
         return [], stats
+    if sc.get("tolerant"):
+        return check_tolerant(sc, res, prog, inst, ref, blocks, ev_of, enq, marker, trace), stats
     # ---- 2. exactly once, by replaying the observed order on the transition table
     order = [b[0] for b in blocks]
     state = ref.progs[0].initial
@@ -501,6 +514,94 @@ def check(sc, res):
     return [], stats
 
 
+def check_tolerant(sc, res, prog, inst, ref, blocks, ev_of, enq, marker, trace):
+    """Tolerant, non-total machine: an accepted event that meets a state without a transition for it
+    leaves no record, so its position in the processing order is not observable.  The run is accepted
+    iff SOME total order of all tokens -- the enqueue order (asyncio), any merge of the senders'
+    orders (threads) -- explains it: replayed from the initial state, every token that has a transition
+    where it stands is the next observed block with exactly the prescribed callbacks, every token that
+    has none is silent, all blocks lie before the last sender's return, and the replay ends in the
+    observed state."""
+    obs_blocks = [(tok, recs) for tok, recs in blocks if tok != "probe"]
+    for tok, recs in obs_blocks:
+        if tok not in ev_of:
+            return [{"clause": "C06.exactly_once", "kind": "unknown_token", "op": None, "detail": {"token": tok}}]
+        if marker is not None and recs[0]["q"] > marker:
+            return [{"clause": "C06.stranded", "kind": "stranded", "op": None,
+                     "detail": {"processed_only_by_the_later_probe_send": [tok]}}]
+    order = [tok for tok, _r in obs_blocks]
+    if len(set(order)) != len(order):
+        return [{"clause": "C06.exactly_once", "kind": "twice", "op": None,
+                 "detail": {"tokens": sorted(t for t in set(order) if order.count(t) > 1)}}]
+    obs = next((r for r in trace if r["k"] == "obs" and r["what"] == "all_returned"), None)
+    final = (obs or {}).get("cs")
+    if sc["mode"] == "asyncio":
+        lanes = [list(enq)]
+    else:
+        lanes = [[s_["tok"] for s_ in sd["sends"] if s_["tok"] in ev_of] for sd in sc["senders"]]
+    trans_of = {}
+    for t in prog["trans"]:
+        for e in t["events"]:
+            trans_of.setdefault((t["src"], e), t)
+    want_cache = {}
+
+    def wanted(t, ev):
+        key = (t["src"], t["dst"], ev)
+        if key not in want_cache:
+            exp = []
+            for kind in ("before", "exit", "on", "enter", "after"):
+                if kind in ("exit", "enter") and t.get("internal"):
+                    continue
+                exp.extend(f"M0/{c}" for c in inst.members(kind, dict(t, idx=prog["trans"].index(t)), ev))
+            want_cache[key] = sorted(exp)
+        return want_cache[key]
+
+    got_of = {tok: sorted(r["c"] for r in recs) for tok, recs in obs_blocks}
+    seen = set()
+    best = {"depth": -1, "why": None}
+
+    def dfs(pos, state, k):
+        key = (pos, state, k)
+        if key in seen:
+            return False
+        seen.add(key)
+        if all(pos[i] == len(lanes[i]) for i in range(len(lanes))):
+            if k == len(order) and (final is None or final == state):
+                return True
+            if sum(pos) > best["depth"]:
+                best.update(depth=sum(pos), why={"replayed_state": state, "observed_state": final,
+                                                 "blocks_explained": k, "blocks": len(order)})
+            return False
+        for i in range(len(lanes)):
+            if pos[i] == len(lanes[i]):
+                continue
+            tok = lanes[i][pos[i]]
+            ev = ev_of[tok]
+            t = trans_of.get((state, ev))
+            npos = pos[:i] + (pos[i] + 1,) + pos[i + 1:]
+            if t is None:
+                if tok in got_of:
+                    continue  # it ran callbacks, so it cannot have met this state
+                if dfs(npos, state, k):
+                    return True
+            else:
+                if k < len(order) and order[k] == tok and got_of[tok] == wanted(t, ev):
+                    if dfs(npos, t["dst"], k + 1):
+                        return True
+                elif sum(pos) > best["depth"]:
+                    best.update(depth=sum(pos), why={"token": tok, "event": ev, "state": state,
+                                                     "expected": wanted(t, ev), "got": got_of.get(tok),
+                                                     "next_observed_block": order[k] if k < len(order) else None})
+        return False
+
+    if dfs(tuple(0 for _ in lanes), ref.progs[0].initial, 0):
+        return []
+    return [{"clause": "C06.exactly_once", "kind": "no_explaining_order", "op": None,
+             "detail": {"processed": order, "sent": lanes, "events": {t: ev_of[t] for t in ev_of},
+                        "closest": best["why"], "observed_state": final,
+                        "switches": res.get("info", {}).get("switches")}}]
+
+
 def result_provenance(sc, res):
     """What a send() returns is built from the before/on results of the FIRST event processed by that
     caller's own drain (its own event, or an earlier-enqueued one of another sender), and is None when
@@ -556,13 +657,14 @@ class C06(Campaign):
     title = "Concurrent senders: mutual exclusion, exactly-once, nothing stranded"
     technique = ("deterministic simulation of schedules: asyncio tasks on a virtual-time loop and real threads "
                  "under a settrace baton scheduler with seeded PCT-style pre-emption; acceptor-mode reference")
-    quick_runs = 12000
+    quick_runs = 10000
     thorough_runs = 150000
     chunk = 100
     fault_kinds = ["preempt@line (threads, <=6 per run, 70% on lines touching the queue / the lock)",
                    "cancel@await: sender wrapped in wait_for (asyncio; only the overlap clause is judged)", "sender think-time",
                    "coroutine created early / awaited late", "callback delay 0..1h virtual (stall)",
-                   "nested send from a callback", "listener attached by a callback while its event is in progress"]
+                   "nested send from a callback", "listener attached by a callback while its event is in progress",
+                   "tolerant non-total machine: events that meet no transition when processed are ignored silently"]
     rule = ("one run = a total, fault-free machine and 2-4 concurrent senders (asyncio tasks with seeded "
             "think-times and yielding coroutine callbacks, or OS threads pre-empted at seeded line boundaries), "
             "each sending 1-4 uniquely tokenised events, some callbacks sending nested events. Checked from "
@@ -572,7 +674,10 @@ class C06(Campaign):
             "processed before the last sender returns, final state = replayed state. Non-trivial = at least "
             "two senders' send() calls overlapped in time; distinct = distinct trace digests among those.")
     assumptions = [
-        "machines are total and fault-free so that 'accepted' is unambiguous (failures are C04's subject)",
+        "machines are total and fault-free so that 'accepted' is unambiguous (failures are C04's subject); a "
+        "quarter of the runs use a tolerant (allow_event_without_transition=True), non-total machine instead: "
+        "silently ignored events leave no record, so the run is accepted iff some order of all tokens compatible "
+        "with the enqueue order (asyncio) / the per-sender orders (threads) explains blocks, callbacks and final state",
         "threads: pre-emption at line granularity inside /repo/statemachine/** and at explicit yield points "
         "in callbacks, <=6 switches per run; a race needing a switch inside one line's bytecodes is out of reach",
         "asyncio: the ready queue stays FIFO; interleavings come from virtual delays",
@@ -580,7 +685,7 @@ class C06(Campaign):
 
     def scenario(self, rnd, tier):
         mode = "threads" if rnd.random() < 0.5 else "asyncio"
-        return gen_c06(rnd, mode, tier)
+        return gen_c06(rnd, mode, tier, tolerant_ok=True)
 
     def evaluate(self, sc):
         res = execute(sc)
@@ -588,6 +693,11 @@ class C06(Campaign):
         total = all(any(t["src"] == s_["id"] and e in t["events"] for t in prog["trans"])
                     for s_ in prog["states"] for e in prog["events"])
         used = {s_["event"] for sd in sc["senders"] for s_ in sd["sends"]}
+        if sc.get("tolerant"):
+            total = sc["ops"][0].get("allow") is True and not any(
+                r_.get("sends") for rules in sc["beh"].values() for r_ in rules)
+        if not all(any(q["name"] == "tok" for q in m_.get("sig", [])) for m_ in prog["cbs"].values()):
+            total = False  # (minimisation) a callback that does not receive the token leaves anonymous records
         if "machine.on_transition" not in prog["cbs"] or not total or not used <= set(prog["events"]):
             # (only reachable through minimisation) without it a token leaves no record: not judged
             return {"violations": [], "unarmed": ["invalid"], "mstats": {}, "res": res,
@@ -608,6 +718,7 @@ class C06(Campaign):
              "probe.overlapping_send_calls": ev["c06"]["overlapping_senders"],
              "fault.nested_sends": st.get("sends", 0), "fault.virtual_delays": st.get("delays", 0),
              "fault.listener_attached_mid_event": st.get("attach", 0),
+             "probe.tolerant_non_total_machine(order search)": 1 if sc.get("tolerant") else 0,
              "fault.preemptions": st.get("switches", 0), "probe.line_steps": st.get("line_steps", 0)}
         for site, n in (ev["res"].get("info", {}).get("sites") or {}).items():
             c["probe.preempt_site." + site] = n
